@@ -352,6 +352,13 @@ func (p *Program) Dump() ([]string, error) {
 						return nil, modelErr{"dangling parent"}
 					}
 					par = p.Files[pd.File].RelPath() + ":" + pd.Name
+					if d.ParentVia > 0 {
+						// written `via.file.Name`: this file must still include via, and via the parent's file
+						via := p.Files[d.ParentVia-1]
+						if via.Deleted || !contains(f.Includes, via.Index) || !contains(via.Includes, pd.File) {
+							return nil, modelErr{"dangling parent"}
+						}
+					}
 				}
 				out = append(out, pre+" parent="+par)
 				for _, fn := range d.Funcs {
